@@ -13,10 +13,21 @@ from enum import Enum
 
 import pandas as pd
 from particle import SpinType
-from particle.particle.utilities import programmatic_name
+from particle.particle.utilities import programmatic_name as _programmatic_name
 
 from ..utils import LineFailure
 from .amplitudechain import LS, AmplitudeChain
+
+
+def programmatic_name(name):
+    """
+    Variable-safe name of a (non-nucleus) parameter or particle name,
+    with recent as well as older versions of the particle package.
+    """
+    try:
+        return _programmatic_name(name, is_nucleus=False)
+    except TypeError:  # older versions of particle have no 'is_nucleus' argument
+        return _programmatic_name(name)
 
 
 class SF_4Body(Enum):
